@@ -158,7 +158,7 @@ def run(ctx):
         "reference decorations; every single%s boundary-value deviation of a "
         "20-node base IR; 5 construction orders each"
         % (9 if ctx.tier == "quick" else 11,
-           "" if ctx.tier == "quick" else " and double"),
+           " and double"),
         "samples": [cases[i][0] for i in (0, len(cases) // 2, len(cases) - 1)],
     }
     return ctx.finish(
